@@ -25,6 +25,7 @@ from __future__ import annotations
 
 from mc import afx
 from mc import family as FAM
+from mc import treehash
 from mc.explorer import Result
 
 MANIFEST = {
@@ -117,6 +118,7 @@ def sids_of(ctx):
 
 def run(ctx):
     afx.serial()
+    treehash.tree_hash()  # pin the cache key in the parent: all forked workers of this run share one cache directory
     sids = sids_of(ctx)
     ctx.explore("runs+edp-column", lambda p: sids if len(p) == 0 else (RUN_METRICS if len(p) == 1 else None),
                 body_run, shard_depth=2, distinct_by_construction=True)
